@@ -384,7 +384,7 @@ def case_script(case):
 
 
 def campaign(ctx):
-    n = {"quick": 500, "thorough": 6000}[ctx.tier]
+    n = {"quick": 1400, "thorough": 6000}[ctx.tier]
     runner.run_hypothesis(ctx, case_strategy(ctx.tier), runner.guarded(run_case), n)
 
 
